@@ -3,8 +3,8 @@ package main
 import (
 	"bytes"
 	"fmt"
-	"strconv"
 	"math/rand"
+	"strconv"
 
 	"golang.org/x/image/font/sfnt"
 	"seehuhn.de/go/sfnt/post"
@@ -421,7 +421,10 @@ func genPost(s *sink, tlcCases string) {
 	}
 	// large counts.  At most 65278 strings can be addressed by a format-2 table (indices 258..65535);
 	// golang.org/x/image reads indices up to 32767 only and is asked up to 6000 glyphs (linear scan per name).
-	type big struct{ n, custom int; xi bool }
+	type big struct {
+		n, custom int
+		xi        bool
+	}
 	// 32509 / 32510 / 32511 custom names: the last index is 32766 / 32767 / 32768 (16-bit sign boundary)
 	bigs := []big{{3000, 1500, true}, {5000, 5000, true}, {32509, 32509, false}, {32530, 32510, false}, {32511, 32511, false}}
 	if vio.Thorough() {
